@@ -93,4 +93,10 @@ def run(chk, repo, tier):
 
     f1_f2(chk, repo)
     r3(chk, repo)
-    r2(chk, repo, all_models(repo, chk))
+    models = all_models(repo, chk)
+    r2(chk, repo, models)
+    # independence from the initial guess: every output completely written, no early exit
+    from .c03 import r5, r7
+
+    r5(chk, repo, models)
+    r7(chk, repo, models)
